@@ -20,6 +20,8 @@ class IterCheck(PropCheck):
     def correspond(self, tier, seed, rng):
         n = 250 if tier == "quick" else 12000
         scenarios = [it.gen_scenario(rng, self.profile) for _ in range(n)]
+        if self.pid == "C11":
+            scenarios += it.close_window_sweep(rng)
         results = it.run_many(scenarios)
         def differs(r):
             return core.first_diff(r["model"] + [r["model_end"]], r["impl"] + [r["status"]]) is not None
